@@ -66,7 +66,9 @@ def run(repo: Repo, rep: Report, tier: str) -> None:
         rep.undecide("models", str(ex))
     _totality(repo, rep, tier)
     _fresh_schemas(repo, rep)
-
+    from . import c10 as _c10
+    from ..core.report import Only as _Only3
+    _c10._r10_3_semantic(repo, _Only3(rep, {"R10.3"}))
 
 # --------------------------------------------------------------------------- R20.1
 
@@ -516,3 +518,6 @@ def _totality(repo: Repo, rep: Report, tier: str) -> None:
     rep.analysed["schema_supported"] = supported
     rep.analysed["packable_but_no_schema"] = sorted(set(unsupported))
     rep.floor("R20.6", 100)
+_ADD8 = ' R20.7: schema creators return objects created by the call, never module-level ones. Borrowed: R10.3 (no strategy lookup with an unhashable type).'
+EXPLANATION += _ADD8
+LEVEL_TEXT += _ADD8
